@@ -150,7 +150,7 @@ func mkBool(t *Term) value {
 // containsSym reports whether v (deeply, without following pointers) holds a symbolic part.
 func containsSym(v value) bool {
 	switch x := v.(type) {
-	case symv, symb, opaqueStr, decStr:
+	case symv, symb, opaqueStr, decStr, symStr, enumStr:
 		return true
 	case array:
 		for _, e := range x {
